@@ -1,7 +1,8 @@
 (** C04 — mass leaves only via fixation/loss.  Only statements; every proof is [exact <lemma>]. *)
 From Coq Require Import Reals List Lra Lia Bool.
 From Dadi Require Import Base.Num Base.NumR Model.Tridiag Model.Scheme Model.NDSweep
-  Proofs.TridiagProofs Proofs.SchemeProofs Proofs.MassBalance Proofs.Drivers Proofs.NDLines Proofs.NDSweepProofs Proofs.NDWeights Proofs.IntegrateLinear Proofs.IntegrateRescale Proofs.SumLemmas Proofs.FrozenMarginal Proofs.FrozenStep Proofs.TotalMass.
+  Proofs.TridiagProofs Proofs.SchemeProofs Proofs.MassBalance Proofs.Drivers Proofs.NDLines Proofs.NDSweepProofs Proofs.NDWeights Proofs.IntegrateLinear Proofs.IntegrateRescale Proofs.SumLemmas Proofs.FrozenMarginal Proofs.FrozenStep Proofs.TotalMass
+  Proofs.IsolatedLine Proofs.IsolatedSweep Proofs.IsolatedStep.
 Import ListNotations.
 Local Open Scope R_scope.
 
@@ -138,6 +139,122 @@ Proof. exact outflow_only_on_corner_lines. Qed.
 Theorem C04_zero_duration_identity : forall fuel shape grids (pops : list (@pop R)) theta0 tf use_delj t phi,
   nltb t t = false -> integrate_const fuel shape grids pops theta0 tf use_delj t t phi = Some phi.
 Proof. exact zero_duration_is_identity_const. Qed.
+
+(** isolated_subset_marginal_exact.  Line level: when the advection term vanishes in the first and last cell and the
+    diffusion term at the first and last grid point (no migration, no selection, grid from 0 to 1), entry i of one
+    implicit step depends only on the interior input values, and for i = 0 (i = N-1) on the corner flag c0 (c1) and the
+    input at that end point *)
+Theorem C04_isolated_line_step_is_local : forall xs Vf Mf nu dt dj, (3 <= length xs)%nat ->
+  Mf (xint xs 0) = 0 -> Mf (xint xs (length xs - 2)) = 0 -> Vf (x xs 0) = 0 -> Vf (x xs (length xs - 1)) = 0 ->
+  forall c0 c1 c0' c1' phi phi' i, (i < length xs)%nat ->
+  (forall i', (1 <= i' <= length xs - 2)%nat -> nthF phi i' = nthF phi' i') ->
+  (i = 0%nat -> c0 = c0' /\ nthF phi 0 = nthF phi' 0) ->
+  (i = (length xs - 1)%nat -> c1 = c1' /\ nthF phi (length xs - 1) = nthF phi' (length xs - 1)) ->
+  nthF (line_solve xs Vf Mf nu c0 c1 dt dj phi) i = nthF (line_solve xs Vf Mf nu c0' c1' dt dj phi') i.
+Proof. exact line_solve_local. Qed.
+Print Assumptions C04_isolated_line_step_is_local.
+
+(** sweep level, any dimension, any removed axis r, any swept axis k <> r of an isolated population: integrating r out
+    commutes with the sweep of k at every point of the reduced array that is not the all-0 / all-1 corner *)
+Theorem C04_isolated_sweep_commutes_with_marginal : forall Sh G pops pops' r k p p' dt dj phi,
+  Forall2 unit_grid G Sh -> (r < length Sh)%nat -> (k < length Sh)%nat -> k <> r ->
+  nth_error pops k = Some p -> nth_error pops' (red_axis r k) = Some p' -> iso_pair p p' ->
+  agree_off_corners (dropn r Sh) (dropn r G)
+    (marginal_out Sh G r (sweep Sh G pops k dt dj phi))
+    (sweep (dropn r Sh) (dropn r G) pops' (red_axis r k) dt dj (marginal_out Sh G r phi)).
+Proof. exact marginal_sweep_other_axis. Qed.
+Print Assumptions C04_isolated_sweep_commutes_with_marginal.
+
+(** ... and r's own sweep (any parameters) leaves the marginal unchanged off the corners *)
+Theorem C04_isolated_own_sweep_keeps_marginal : forall Sh G pops r p dt dj phi,
+  Forall2 unit_grid G Sh -> (r < length Sh)%nat -> nth_error pops r = Some p -> dt <> 0 ->
+  nonsingular_axis Sh G p dj dt r ->
+  agree_off_corners (dropn r Sh) (dropn r G)
+    (marginal_out Sh G r (sweep Sh G pops r dt dj phi)) (marginal_out Sh G r phi).
+Proof. exact marginal_sweep_same_axis. Qed.
+
+(** "agree off the corners" is: same length, equal at every flat index except the first and the last *)
+Theorem C04_agree_off_corners_is_all_but_first_and_last : forall Sh G X Y, Forall2 unit_grid G Sh ->
+  agree_off_corners Sh G X Y ->
+  length X = length Y /\ forall j, (0 < j < prodn Sh - 1)%nat -> nthF X j = nthF Y j.
+Proof. exact agree_off_corners_flat. Qed.
+
+(** isolated_subset_marginal_exact, one population removed, any number of steps with the same time steps: the marginal
+    over r of the full run equals the run of the remaining populations alone, except at the two corners.
+    Population r may have any parameters; all others have no selection and receive no migrants. *)
+Theorem C04_isolated_marginal_exact_steps : forall Sh G pops r pr theta dj dts phi,
+  Forall2 unit_grid G Sh -> (r < length Sh)%nat -> length pops = length Sh -> nth_error pops r = Some pr ->
+  Forall isolated (dropn r pops) ->
+  (forall dt, In dt dts -> dt <> 0 /\ nonsingular_axis Sh G pr dj dt r) -> length phi = prodn Sh ->
+  length (marginal_out Sh G r (steps Sh G pops theta dj dts phi)) =
+  length (steps (dropn r Sh) (dropn r G) (reduce_pops r pops) theta dj dts (marginal_out Sh G r phi)) /\
+  forall j, (0 < j < prodn (dropn r Sh) - 1)%nat ->
+    nthF (marginal_out Sh G r (steps Sh G pops theta dj dts phi)) j =
+    nthF (steps (dropn r Sh) (dropn r G) (reduce_pops r pops) theta dj dts (marginal_out Sh G r phi)) j.
+Proof. exact isolated_marginal_steps_canonical. Qed.
+Print Assumptions C04_isolated_marginal_exact_steps.
+
+(** the same for any reduced population list that keeps sizes, beta and flags (one step, general form) *)
+Theorem C04_isolated_marginal_exact_one_step : forall Sh G pops pops' r pr, Forall2 unit_grid G Sh -> (r < length Sh)%nat ->
+  length pops = length Sh -> nth_error pops r = Some pr -> Forall2 iso_pair (dropn r pops) pops' ->
+  forall theta dj dt phi, dt <> 0 -> nonsingular_axis Sh G pr dj dt r -> length phi = prodn Sh ->
+  agree_off_corners (dropn r Sh) (dropn r G)
+    (marginal_out Sh G r (step Sh G pops theta dt dj phi))
+    (step (dropn r Sh) (dropn r G) pops' theta dt dj (marginal_out Sh G r phi)).
+Proof. exact isolated_marginal_step. Qed.
+
+(** a subset: populations removed one after another *)
+Theorem C04_isolated_subset_marginal_exact : forall dj dts theta, (forall dt, In dt dts -> dt <> 0) ->
+  forall Sh G pops rs popsF, iso_chain dj dts Sh G pops rs popsF -> Forall2 unit_grid G Sh ->
+  forall phi, length phi = prodn Sh ->
+  agree_off_corners (dropns rs Sh) (dropns rs G)
+    (marginal_outs Sh G rs (steps Sh G pops theta dj dts phi))
+    (steps (dropns rs Sh) (dropns rs G) popsF theta dj dts (marginal_outs Sh G rs phi)).
+Proof. exact isolated_subset_marginal_steps. Qed.
+Print Assumptions C04_isolated_subset_marginal_exact.
+
+(** the constant-parameter and the time-dependent driver, when both runs choose the same time step *)
+Theorem C04_isolated_marginal_exact_integrate : forall Sh G pops pops' r pr, Forall2 unit_grid G Sh -> (r < length Sh)%nat ->
+  length pops = length Sh -> nth_error pops r = Some pr -> Forall2 iso_pair (dropn r pops) pops' ->
+  forall theta dj tf, 0 < tf -> dt_of tf pops = dt_of tf pops' ->
+  (forall dt, 0 < dt -> nonsingular_axis Sh G pr dj dt r) ->
+  forall fuel t T X Y RX, length X = prodn Sh -> agree_off_corners (dropn r Sh) (dropn r G) (marginal_out Sh G r X) Y ->
+  integrate_const fuel Sh G pops theta tf dj t T X = Some RX ->
+  exists RY, integrate_const fuel (dropn r Sh) (dropn r G) pops' theta tf dj t T Y = Some RY /\
+             agree_off_corners (dropn r Sh) (dropn r G) (marginal_out Sh G r RX) RY.
+Proof. exact isolated_marginal_integrate_const. Qed.
+Theorem C04_isolated_marginal_exact_integrate_timedep : forall Sh G popsf popsf' prf thetaf r dj tf,
+  Forall2 unit_grid G Sh -> (r < length Sh)%nat ->
+  (forall s, length (popsf s) = length Sh) -> (forall s, nth_error (popsf s) r = Some (prf s)) ->
+  (forall s, Forall2 iso_pair (dropn r (popsf s)) (popsf' s)) ->
+  0 < tf -> (forall s, dt_of tf (popsf s) = dt_of tf (popsf' s)) ->
+  (forall s dt, 0 < dt -> nonsingular_axis Sh G (prf s) dj dt r) ->
+  forall fuel t T X Y RX, length X = prodn Sh ->
+  agree_off_corners (dropn r Sh) (dropn r G) (marginal_out Sh G r X) Y ->
+  integrate_tdep fuel Sh G popsf thetaf tf dj t T X = Some RX ->
+  exists RY, integrate_tdep fuel (dropn r Sh) (dropn r G) popsf' thetaf tf dj t T Y = Some RY /\
+             agree_off_corners (dropn r Sh) (dropn r G) (marginal_out Sh G r RX) RY.
+Proof. exact isolated_marginal_integrate_tdep. Qed.
+Print Assumptions C04_isolated_marginal_exact_integrate_timedep.
+
+(** when r is isolated too (positive size and beta), no pivot can vanish: the pivot hypothesis is automatic *)
+Theorem C04_isolated_pivots_never_vanish : forall Sh G p dj dt r, Forall2 unit_grid G Sh -> (r < length Sh)%nat ->
+  isolated p -> 0 < p_nu p -> 0 < p_beta p -> 0 < dt -> nonsingular_axis Sh G p dj dt r.
+Proof. exact nonsingular_axis_isolated. Qed.
+
+Example C04_isolated_nonvacuous :
+  let g := [0; 1/2; 1] in
+  let Sh := [3; 3]%nat in let G := [g; g] in
+  let p0 := {| p_nu := 1; p_gamma := 0; p_h := 1/2; p_beta := 1; p_ms := [0]; p_frozen := false; p_nomut := false |} in
+  let p1 := {| p_nu := 2; p_gamma := 0; p_h := 1/2; p_beta := 1; p_ms := [0]; p_frozen := false; p_nomut := false |} in
+  let p0' := {| p_nu := 1; p_gamma := 0; p_h := 1/2; p_beta := 1; p_ms := []; p_frozen := false; p_nomut := false |} in
+  let pops := [p0; p1] in let pops' := [p0'] in let r := 1%nat in
+  let dts := [1/10; 1/20] in let phi := repeat 1 9 in
+  Forall2 unit_grid G Sh /\ (r < length Sh)%nat /\ length pops = length Sh /\ nth_error pops r = Some p1 /\
+  Forall2 iso_pair (dropn r pops) pops' /\
+  (forall dt, In dt dts -> dt <> 0 /\ nonsingular_axis Sh G p1 false dt r) /\ length phi = prodn Sh /\
+  (0 < prodn (dropn r Sh) - 1)%nat.
+Proof. exact isolated_marginal_nonvacuous. Qed.
 
 Example C04_nonvacuous : trap_w [0; 1/2; 1] 1 * dfactor [0; 1/2; 1] 1 = 1.
 Proof. apply w_dfactor; cbn [length]; try lia. intros i Hi. unfold dx, x, nthF. numR.
